@@ -37,6 +37,9 @@ class ParsedPattern:
     regex_pattern: str
     amount_conditions: List[AmountCondition] = field(default_factory=list)
     date_conditions: List[DateCondition] = field(default_factory=list)
+    # Where the pattern came from: True = match expression of a .rules file,
+    # False = regular expression of a legacy CSV file, None = unknown (guess from the text)
+    is_expression: Optional[bool] = None
 
 
 class ModifierParseError(ValueError):
